@@ -69,13 +69,21 @@ type Worker struct {
 }
 
 type tailBuf struct {
-	mu  sync.Mutex
-	buf []byte
+	mu   sync.Mutex
+	head []byte // the beginning of the stream: a Go crash dump names its cause first
+	buf  []byte
 }
 
 func (t *tailBuf) Write(p []byte) (int, error) {
 	t.mu.Lock()
 	defer t.mu.Unlock()
+	if len(t.head) < 12000 {
+		n := 12000 - len(t.head)
+		if n > len(p) {
+			n = len(p)
+		}
+		t.head = append(t.head, p[:n]...)
+	}
 	t.buf = append(t.buf, p...)
 	if len(t.buf) > 1<<17 {
 		t.buf = t.buf[len(t.buf)-(1<<16):]
@@ -86,6 +94,9 @@ func (t *tailBuf) Write(p []byte) (int, error) {
 func (t *tailBuf) String() string {
 	t.mu.Lock()
 	defer t.mu.Unlock()
+	if len(t.buf) > len(t.head) && len(t.head) >= 12000 {
+		return string(t.head) + "\n[...]\n" + string(t.buf[len(t.buf)-min(len(t.buf)-len(t.head), 4000):])
+	}
 	return string(t.buf)
 }
 
@@ -203,7 +214,7 @@ func (w *Worker) Do(rq Request) *Result {
 				if !begun {
 					return &Result{ID: rq.ID, Engine: rq.Engine, Seed: rq.Seed, HashSeed: w.hashSeed, Infra: "worker died before BEGIN:\n" + tail(st, 3000)}
 				}
-				return &Result{ID: rq.ID, Engine: rq.Engine, Seed: rq.Seed, HashSeed: w.hashSeed, Crashed: true, Stderr: tail(st, 6000)}
+				return &Result{ID: rq.ID, Engine: rq.Engine, Seed: rq.Seed, HashSeed: w.hashSeed, Crashed: true, Stderr: tail(st, 20000)}
 			}
 		}
 	}
@@ -241,4 +252,11 @@ func crashFrame(stderr string) (kind, frame string) {
 		}
 	}
 	return
+}
+
+func headOf(s string, n int) string {
+	if len(s) > n {
+		return s[:n] + "..."
+	}
+	return s
 }
